@@ -229,6 +229,15 @@ def gen(rng, i, tier):
         labs = G.labels(rng, uni, rng.randint(1, 4))
         return {"op": "tree", "spin": fam is SPIN,
                 "tree": gen_tree(rng, rng.randint(1, 4 if tier == "thorough" else 3), fam, uni, labs, True)}
+    if rng.random() < 0.12:
+        # the smallest models, evaluated at a dict: one variable whose label is false in a boolean context (0), set to 1 / -1
+        fn = rng.choice(["qubo", "qubo", "pubo", "quso", "puso"])
+        spin = fn in ("puso", "quso")
+        form = rng.choice(["dict", "obj"])
+        if form == "obj":
+            form = rng.choice([k for k in (SPIN if spin else BOOL) if (k in QUAD) == (fn in ("qubo", "quso"))])
+        t = [((0,), G.coef(rng))] + ([((), G.coef(rng))] if rng.random() < 0.5 else [])
+        return {"op": "value", "fn": fn, "form": form, "terms": G.jraw(t), "x": [[0, -1 if spin else 1]], "cont": "dict"}
     fn = rng.choice(["pubo", "qubo", "puso", "quso"])
     spin = fn in ("puso", "quso")
     form = rng.choice(["dict", "obj"])
